@@ -256,7 +256,7 @@ COMPATIBLE = {
 }
 
 
-def rule_ffisig(crate, lib):
+def rule_ffisig(crate, lib, dispositions=None):
     out = RuleOut("FFISIG", "native functions extract their arguments with the kinds their Numbat declarations promise")
     reg, regfn = registry(crate)
     rf = crate.file_of(regfn)
@@ -293,6 +293,35 @@ def rule_ffisig(crate, lib):
         ex, plain = extractions(crate, body)
         bf = crate.file_of(body)
         if not plain:
+            # the body hands `args` on to helper functions of the crate (dispatch): classify the helpers
+            helper_bad = []
+            helpers_ok = []
+            args_ids = {p["id"] for p in body["params"] if p.get("k") == "Binding" and crate.ty(p).startswith("std::collections::VecDeque<crate::ffi::Arg>")}
+            for c in walk(body["body"]):
+                if c.get("k") != "Call":
+                    continue
+                hb = crate.hir.get(callee(c) or "")
+                if hb is None or not any(x.get("k") == "Path" and x["res"].get("r") == "local" and x["res"].get("id") in args_ids for a in c.get("args", []) for x in walk(a)):
+                    continue
+                hex_, hplain = extractions(crate, hb)
+                if hplain and hex_ and len(hex_) <= nparams:
+                    helpers_ok.append(hb["name"])
+                for i, (kind, xl) in enumerate(hex_):
+                    if i < nparams:
+                        pname, ptype = d.params[i]
+                        want = nbt_param_kind(ptype, d, dims)
+                        if want not in COMPATIBLE.get(kind, set()) or (want == "any" and kind != "any"):
+                            helper_bad.append((hb, xl, "helper `%s` takes argument %d (`%s: %s`, declared as %s — an unbounded type parameter accepts every value) apart as %s" % (hb["name"], i + 1, pname, " ".join(t.text for t in ptype), want, kind)))
+            if helper_bad:
+                hb, xl, msg = helper_bad[0]
+                disp = (dispositions or {}).get(key + ":dispatch")
+                out.violation(key + ":dispatch", crate.file_of(hb), hb["line"], "native `%s` dispatches on the run-time value and %s: a value of another shape makes the positional `pop().unwrap()` / `unsafe_as_*` extractions panic%s" % (name, "; ".join(m_ for (_h, _l, m_) in helper_bad), (". Witness: " + disp) if disp else ""))
+                n_checked += 1
+                continue
+            if helpers_ok:
+                n_checked += 1
+                out.ok(key, bf, body["line"], "arguments are extracted by the helper(s) %s in agreement with the declaration in %s" % (", ".join(sorted(set(helpers_ok))), mn))
+                continue
             n_unclassified += 1
             out.advisory(key, bf, body["line"], "argument extraction is not a plain sequence (loop/closure/other use of `args`): not classified")
             continue
